@@ -435,7 +435,7 @@ var exhaustSpecs = map[string]dispatcherSpec{
 		"ConditionalBlock": "evaluated by its parents evalIf/evalWhile through evalConditionalBlock, never passed to eval",
 		"StepRange":        "evaluated by newStepRange from evalFor, never passed to eval",
 	}},
-	"format":  {rel: "pkg/parser", fn: "(*formatter).format", policy: "all"},
+	"format":  {rel: "pkg/parser", fn: "(*formatting).format", policy: "all"},
 	"Compile": {rel: "pkg/bytecode", fn: "(*Compiler).Compile", policy: "error-on-nomatch"},
 }
 
